@@ -9,10 +9,10 @@ META = dict(
     property="C43",
     level="exploration",
     technique="complete enumeration of short texts x smallest limits + Hypothesis texts/limits; wire lines recorded per transport write and decoded with a reference CTCP low-level dequoter",
-    level_text="IRCClient.msg / IRCClient.notice are called with generated text and an explicit length limit (minimum+1 .. 512) on a client attached to a recording transport; every write must be one line: at most `limit` octets including CRLF, no CR/LF inside, correct 'PRIVMSG|NOTICE target :' prefix; the message parts, low-level-dequoted by a reference reader and concatenated, must equal the text with whitespace removed. The same oracle is applied to a rate-limited client (lineRate set, irc.reactor replaced by a harness Clock): 1-4 messages separated by generated idle periods, judged per message at quiescence, lines in FIFO order (all schedules of 2-3 short messages with 0..5 ticks between them are enumerated). lowDequote(lowQuote(s)) and ctcpDequote(ctcpQuote(s)) (and their composition) must return s. All texts of <=4 (thorough: <=5) characters over a 7-character alphabet (incl. CR) x the 3 smallest limits and all quoting inputs of <=4 characters over a 10-character alphabet are enumerated.",
+    level_text="IRCClient.msg / IRCClient.notice are called with generated text and an explicit length limit (minimum+1 .. 512) on a client attached to a recording transport; every write must be one line: at most `limit` octets including CRLF, no CR/LF inside, correct 'PRIVMSG|NOTICE target :' prefix; the message parts, low-level-dequoted by a reference reader and concatenated, must equal the text with whitespace removed. The same oracle is applied to a rate-limited client (lineRate set, irc.reactor replaced by a harness Clock): 1-4 messages separated by generated idle periods, optionally with the connection lost and the same client object connected again in between, judged per message at quiescence (messages of an earlier connection: an in-order prefix), lines in FIFO order (all schedules of 2-3 short messages with 0..5 ticks between them are enumerated). lowDequote(lowQuote(s)) and ctcpDequote(ctcpQuote(s)) (and their composition) must return s, and so must the CTCP framing that applies the quoting: ctcpExtract(ctcpStringify([(tag, s), ...])), plain, after low-level quoting and next to normal text. All texts of <=4 (thorough: <=5) characters over a 7-character alphabet (incl. CR) x the 3 smallest limits and all quoting inputs of <=4 characters over a 10-character alphabet are enumerated.",
     level_note="'Whitespace' in the content oracle is every character with str.isspace() (the most lenient reading of 'non-whitespace characters'); the reference dequoter follows the CTCP specification's low-level quoting table and is trusted. length=None (the estimated safe maximum) is not exercised: the statement speaks about a given limit. Lone surrogates are outside the domain (not encodable).",
     design_ref="§5 C43",
-    rule="split case = {kind:'split', how:'msg'|'notice', user, text, limit}; non-trivial = the text needs more than one line, or contains a multi-byte / low-quoted character or a line break. queue case = {kind:'queue', rate, msgs:[{how, text, extra (limit = minimum+extra), idle (half ticks before sending)}]}; every queue case is non-trivial. quote case = {kind:'quote', s}; non-trivial = s contains a character either quoting level touches. Distinct by the whole case.",
+    rule="split case = {kind:'split', how:'msg'|'notice', user, text, limit}; non-trivial = the text needs more than one line, or contains a multi-byte / low-quoted character or a line break. queue case = {kind:'queue', rate, msgs:[{how, text, extra (limit = minimum+extra), idle (half ticks before sending), reconnect?, down? (half ticks disconnected)}]}; every queue case is non-trivial. quote case = {kind:'quote', s}; non-trivial = s contains a character either quoting level touches. Distinct by the whole case.",
 )
 
 M_QUOTE = "\x10"
@@ -61,7 +61,7 @@ class _Recorder:
         return None
 
 
-def _judge(ctx, case, fmt, text, limit, writes, pre):
+def _judge(ctx, case, fmt, text, limit, writes, pre, cut_short=False):
     """The statement's per-message oracle over the wire lines `writes` of ONE
     msg()/notice() call.  `pre` prefixes the signatures of the structural and
     content verdicts; the over-limit signatures are shared (same causes)."""
@@ -84,9 +84,11 @@ def _judge(ctx, case, fmt, text, limit, writes, pre):
     if any(c in p_ for p_ in parts for c in "\r\n"):
         ctx.count("split: CR/LF of the text sent inside a line (quoted)")
     # ---- content
-    if _nows("".join(parts)) != _nows(text):
+    sent, whole = _nows("".join(parts)), _nows(text)
+    if (not whole.startswith(sent)) if cut_short else (sent != whole):
         ctx.violation(pre + "-content-lost-or-reordered", case,
-                      f"text {text[:200]!r} limit {limit}: parts {parts[:8]!r}")
+                      f"text {text[:200]!r} limit {limit}: parts {parts[:8]!r}"
+                      + (" (connection lost later: a prefix was enough)" if cut_short else ""))
     # ---- limit, in octets, terminator included
     for n, w in enumerate(writes):
         if len(w) <= limit:
@@ -168,9 +170,12 @@ def _run_split(ctx, case):
 
 def _run_queue(ctx, case):
     """Rate-limited client (lineRate set): several messages separated by idle
-    periods on a harness-owned clock; at quiescence every message must have
-    arrived completely and in order."""
-    from twisted.internet import task
+    periods on a harness-owned clock, optionally with the connection lost and
+    the same client object connected again in between; at quiescence every
+    message sent on the last connection must have arrived completely and in
+    order, earlier ones at least as an in-order prefix."""
+    from twisted.internet import error, task
+    from twisted.python.failure import Failure
     from twisted.words.protocols import irc
     rate, msgs = case["rate"], case["msgs"]
     assert rate > 0 and msgs
@@ -180,26 +185,42 @@ def _run_queue(ctx, case):
     client = irc.IRCClient()
     client.performLogin = 0
     client.lineRate = rate
-    tr = _Recorder()
+    wire = []       # (epoch, bytes) in the order written, over all connections
     stamps = []
-    plain_write = tr.write
 
-    def stamped(data):
-        stamps.append(clock.seconds())
-        plain_write(data)
-    tr.write = stamped
-    fmts = []
-    try:
+    def connect(epoch):
+        tr = _Recorder()
+
+        def stamped(data):
+            stamps.append(clock.seconds())
+            wire.append((epoch, bytes(data)))
+        tr.write = stamped
         client.makeConnection(tr)
-        del tr.writes[:]
+
+    fmts, epochs = [], []
+    epoch = 0
+    try:
+        connect(0)
+        del wire[:]
         del stamps[:]
         total = 0
         for i, m in enumerate(msgs):
             for _h in range(m["idle"]):
                 clock.advance(rate / 2.0)
+            if m.get("reconnect") and i:
+                armed = bool(stamps) and clock.seconds() - stamps[-1] < rate
+                client.connectionLost(Failure(error.ConnectionLost()))
+                for _h in range(m.get("down", 0)):
+                    clock.advance(rate / 2.0)
+                epoch += 1
+                connect(epoch)
+                ctx.count("queue: same client object connected again after a connection loss")
+                if armed:
+                    ctx.count("queue: connection lost while the drain timer was armed, then reconnected")
             cmd = "PRIVMSG" if m["how"] == "msg" else "NOTICE"
             fmt = f"{cmd} #q{i} :"
             fmts.append(fmt)
+            epochs.append(epoch)
             limit = len(fmt) + 2 + m["extra"]
             if i and stamps:
                 if clock.seconds() - stamps[-1] >= rate:
@@ -210,21 +231,21 @@ def _run_queue(ctx, case):
             total += len(m["text"])
         quiet = 0
         for _t in range(total + 10):
-            n0 = len(tr.writes)
+            n0 = len(wire)
             clock.advance(rate)
-            quiet = quiet + 1 if len(tr.writes) == n0 else 0
+            quiet = quiet + 1 if len(wire) == n0 else 0
             if quiet >= 3:
                 break
     finally:
         irc.reactor = saved
-        client.connectionLost(None)
+        client.connectionLost(Failure(error.ConnectionDone()))
     ctx.nontrivial(case)
     ctx.count("queue nontrivial")
     ctx.count("queue: messages = %d" % len(msgs))
     # attribute lines to messages by their prefix; FIFO order across messages
     per = [[] for _m in msgs]
     last = 0
-    for n, w in enumerate(tr.writes):
+    for n, (_e, w) in enumerate(wire):
         owner = [i for i, f in enumerate(fmts) if w.startswith(f.encode("ascii"))]
         if not owner:
             ctx.violation("queued-line-prefix", case, f"line {n}: {w[:80]!r}")
@@ -234,7 +255,8 @@ def _run_queue(ctx, case):
         last = owner[0]
         per[owner[0]].append(w)
     for i, m in enumerate(msgs):
-        _judge(ctx, case, fmts[i], m["text"], len(fmts[i]) + 2 + m["extra"], per[i], "queued")
+        _judge(ctx, case, fmts[i], m["text"], len(fmts[i]) + 2 + m["extra"], per[i], "queued",
+               cut_short=epochs[i] != epoch)
     if len(msgs) > 1 and len(ctx.samples) < 5:
         ctx.sample(case)
 
@@ -259,6 +281,19 @@ def _run_quote(ctx, case):
     cq = irc.ctcpQuote(s)
     if irc.ctcpDequote(cq) != s:
         ctx.violation("quote-roundtrip:ctcp", case, f"{s!r} -> {cq!r} -> {irc.ctcpDequote(cq)!r}")
+    if s:
+        # the CTCP framing that applies this quoting: stringify -> (wire) -> extract
+        ctx.count("quote: CTCP message stringify -> extract")
+        if "\x01" in s:
+            ctx.count("quote: text with the CTCP delimiter through stringify -> extract")
+        framed = irc.ctcpStringify([("VERIF", s), ("SECOND", s)])
+        for label, arrived in (("plain", framed), ("low-quoted", irc.lowDequote(irc.lowQuote(framed))),
+                               ("with-normal-text", "pre " + framed + " post")):
+            ex = irc.ctcpExtract(arrived)
+            want_normal = ["pre ", " post"] if label == "with-normal-text" else []
+            if ex.get("extended") != [("VERIF", s), ("SECOND", s)] or ex.get("normal") != want_normal:
+                ctx.violation("quote-roundtrip:ctcp-stringify-extract", case,
+                              f"{label}: {s!r} -> {arrived!r} -> {ex!r}")
     both = irc.lowQuote(irc.ctcpQuote(s))
     back = irc.ctcpDequote(irc.lowDequote(both))
     if back != s:
@@ -358,9 +393,15 @@ def _small_queue_cases():
     for n in (2, 3):
         for ts in itertools.product(texts, repeat=n):
             for gaps in itertools.product(idles, repeat=n - 1):
-                yield dict(kind="queue", rate=1.0,
-                           msgs=[dict(how="msg" if k % 2 == 0 else "notice", text=t, extra=1,
-                                      idle=0 if k == 0 else gaps[k - 1]) for k, t in enumerate(ts)])
+                base = [dict(how="msg" if k % 2 == 0 else "notice", text=t, extra=1,
+                             idle=0 if k == 0 else gaps[k - 1]) for k, t in enumerate(ts)]
+                yield dict(kind="queue", rate=1.0, msgs=base)
+                # the same schedule with the connection lost and the client
+                # connected again before the last message (0 or 3 half ticks down)
+                for down in (0, 3):
+                    again = [dict(m) for m in base]
+                    again[-1].update(reconnect=True, down=down)
+                    yield dict(kind="queue", rate=1.0, msgs=again)
 
 
 QUEUE_TEXT = st.lists(st.one_of(ASCII_WORD, ASCII_WORD, st.sampled_from([" ", " ", "\n", "\t", "  "]),
@@ -369,9 +410,11 @@ QUEUE_TEXT = st.lists(st.one_of(ASCII_WORD, ASCII_WORD, st.sampled_from([" ", " 
 QUEUE_CASES = st.builds(
     lambda rate, msgs: dict(kind="queue", rate=rate, msgs=msgs),
     st.sampled_from([0.5, 1.0, 2.5]),
-    st.lists(st.builds(lambda how, text, extra, idle: dict(how=how, text=text, extra=extra, idle=idle),
+    st.lists(st.builds(lambda how, text, extra, idle, rc, down: dict(how=how, text=text, extra=extra, idle=idle,
+                                                                     reconnect=rc, down=down),
                        st.sampled_from(["msg", "notice"]), QUEUE_TEXT,
-                       st.sampled_from([1, 2, 3, 5, 10, 40, 400]), st.integers(0, 12)),
+                       st.sampled_from([1, 2, 3, 5, 10, 40, 400]), st.integers(0, 12),
+                       st.sampled_from([False, False, False, True]), st.integers(0, 4)),
              min_size=1, max_size=4))
 
 
